@@ -51,7 +51,7 @@ def run_prelude(algs, prelude):
 def cases(draw, tier):
     big = tier == "thorough"
     # generation dominates the cost: every dataset is examined under three drawn schemes and the four presets
-    ds = draw(gen.datasets(max_n=15 if big else 8, max_m=7 if big else 6))
+    ds = draw(gen.datasets(max_n=15 if big else 8, max_m=7 if big else 6, many="thousand"))
     return {"schemes": [draw(gen.dyadic_schemes()) for _ in range(3)], "dataset": ds,
             "flag": draw(st.booleans()), "prelude": draw(preludes()),
             "via_mutation": draw(mutate.via_strategy(ds["rankings"], p=4))}
